@@ -23,7 +23,7 @@ import (
 
 type PlumbIn struct {
 	Base  string   `json:"base"`  // plain | prepared
-	Steps []string `json:"steps"` // sess | sessprep | begin | block
+	Steps []string `json:"steps"` // sess | sessprep | begin | block | conn
 }
 
 type PlumbObs struct {
@@ -31,6 +31,8 @@ type PlumbObs struct {
 	Prepared bool     `json:"prepared"`
 	Survived int      `json:"survived"`
 	Errs     []string `json:"errs,omitempty"`
+	// later uses of the same statement text: non-prepared, fresh prepared-mode session, prepared-mode transaction
+	ReuseErrs []string `json:"reuse_errs,omitempty"`
 }
 
 var markSeq int64 = 1000
@@ -43,13 +45,12 @@ func (e *env) runPlumb(in PlumbIn) PlumbObs {
 	defer sqlDB.Close()
 	db, err := gorm.Open(sqlite.Dialector{Conn: sqlDB}, &gorm.Config{Logger: logger.Discard, PrepareStmt: in.Base == "prepared"})
 	lib.Must(err)
-	id := atomic.AddInt64(&markSeq, 1)
+	id := atomic.AddInt64(&markSeq, 10)
 	fail := func(what string, err error) {
 		if err != nil {
 			o.Errs = append(o.Errs, what+": "+err.Error())
 		}
 	}
-	var began *gorm.DB
 	var walk func(h *gorm.DB, steps []string) error
 	walk = func(h *gorm.DB, steps []string) error {
 		if len(steps) == 0 {
@@ -72,8 +73,15 @@ func (e *env) runPlumb(in PlumbIn) PlumbObs {
 		case "begin":
 			tx := h.Begin()
 			fail("begin", tx.Error)
-			began = tx
-			return walk(tx, steps[1:])
+			walk(tx, steps[1:])
+			fail("rollback", tx.Rollback().Error)
+			return nil
+		case "conn":
+			fail("connection", h.Connection(func(tx *gorm.DB) error {
+				walk(tx, steps[1:])
+				return nil
+			}))
+			return nil
 		case "block":
 			err := h.Transaction(func(tx *gorm.DB) error {
 				walk(tx, steps[1:])
@@ -87,13 +95,26 @@ func (e *env) runPlumb(in PlumbIn) PlumbObs {
 		return nil
 	}
 	walk(db, in.Steps)
-	if began != nil {
-		fail("rollback", began.Rollback().Error)
-	}
 	var n int64
 	fail("count", db.Raw("SELECT count(*) FROM marks WHERE id = ?", id).Scan(&n).Error)
 	o.Survived = int(n)
-	fail("cleanup", db.Exec("DELETE FROM marks WHERE id = ?", id).Error)
+	// the same text again: without the cache, from a fresh prepared-mode session, and inside a
+	// prepared-mode transaction -- all three must work alike
+	reuse := func(what string, err error) {
+		if err != nil {
+			o.ReuseErrs = append(o.ReuseErrs, what+": "+err.Error())
+		}
+	}
+	plain, err := gorm.Open(sqlite.Dialector{Conn: sqlDB}, &gorm.Config{Logger: logger.Discard})
+	lib.Must(err)
+	const ins = "INSERT INTO marks (id) VALUES (?)"
+	reuse("non-prepared", plain.Exec(ins, id+1).Error)
+	reuse("prepared session", db.Session(&gorm.Session{PrepareStmt: true}).Exec(ins, id+2).Error)
+	ptx := db.Session(&gorm.Session{PrepareStmt: true}).Begin()
+	reuse("prepared transaction: begin", ptx.Error)
+	reuse("prepared transaction", ptx.Exec(ins, id+3).Error)
+	reuse("prepared transaction: rollback", ptx.Rollback().Error)
+	fail("cleanup", plain.Exec("DELETE FROM marks WHERE id BETWEEN ? AND ?", id, id+9).Error)
 	return o
 }
 
@@ -104,32 +125,35 @@ func gPlumb(in PlumbIn, o PlumbObs) string {
 			return "PSess"
 		case "sessprep":
 			return "PSessPrep"
+		case "conn":
+			return "PConn"
 		}
 		return "PBegin"
 	})
 	return lib.App("mk_plumb", lib.Bool(in.Base == "prepared"), steps, lib.Bool(o.InTx), lib.Bool(o.Prepared),
-		lib.Nat(o.Survived), lib.Nat(len(o.Errs)))
+		lib.Nat(o.Survived), lib.Nat(len(o.Errs)), lib.Nat(len(o.ReuseErrs)))
 }
 
-// allPlumb enumerates every step list of length <= maxLen with at most one begin/block.
+// allPlumb enumerates every step list of length <= maxLen with at most one begin/block and at
+// most one Connection block (not inside a transaction).
 func allPlumb(maxLen int) []PlumbIn {
 	var out []PlumbIn
-	var rec func(prefix []string, hasTx bool)
-	rec = func(prefix []string, hasTx bool) {
+	var rec func(prefix []string, hasTx, hasConn bool)
+	rec = func(prefix []string, hasTx, hasConn bool) {
 		for _, b := range []string{"plain", "prepared"} {
 			out = append(out, PlumbIn{Base: b, Steps: append([]string{}, prefix...)})
 		}
 		if len(prefix) == maxLen {
 			return
 		}
-		for _, s := range []string{"sess", "sessprep", "begin", "block"} {
+		for _, s := range []string{"sess", "sessprep", "begin", "block", "conn"} {
 			tx := s == "begin" || s == "block"
-			if tx && hasTx {
+			if tx && hasTx || s == "conn" && (hasTx || hasConn) {
 				continue
 			}
-			rec(append(append([]string{}, prefix...), s), hasTx || tx)
+			rec(append(append([]string{}, prefix...), s), hasTx || tx, hasConn || s == "conn")
 		}
 	}
-	rec(nil, false)
+	rec(nil, false, false)
 	return out
 }
